@@ -38,8 +38,8 @@ RecRef(f)    == [r \in Refs |-> f[r]]
 RecCg(st)    == [on |-> st.cg.on, commits |-> SetOf(st.cg.commits), closed |-> st.cg.closed]
 RecMidx(st)  == [on |-> st.midx.on, packs |-> {PackOf(st.midx.packs[i]) : i \in DOMAIN st.midx.packs}]
 RecBmp(st)   == {[at |-> PackOf(st.bmp[i].at), for |-> PackOf(st.bmp[i]["for"])] : i \in DOMAIN st.bmp}
-RecAct(a)    == [i \in DOMAIN a |-> IF a[i] \in Seq(Nat) \/ a[i] = <<>> THEN SetOf(a[i])
-                                    ELSE IF DOMAIN a[i] = 1..2 /\ a[i][2] \in {"d", "g"} THEN PackOf(a[i]) ELSE a[i]]
+\* action arguments come tagged: [k |-> "set" | "pack" | "val", v |-> ...]
+RecAct(a)    == [i \in DOMAIN a |-> CASE a[i].k = "set" -> SetOf(a[i].v) [] a[i].k = "pack" -> PackOf(a[i].v) [] OTHER -> a[i].v]
 
 \* the primed state agrees with the projection (bitmap entries are compared without their commit selection)
 Matches(st) ==
@@ -76,8 +76,11 @@ ExactAll(o)  == Ans(o.all) = PresentS
 DocRC(e)  == Ans(e.r) = T_RC(SetOf(e.H), SetOf(e.X))
 AsIsRC(e) == LET H == SetOf(e.H)  X == SetOf(e.X)  u == View({}) IN
              Ans(e.r) = (IF ~(H \subseteq PresentS) THEN MISSING ELSE Norm(Walk(u, H, X, N) \ X))
-DocRO(e)  == e.cb = <<>> /\ Ans(e.full) = T_RO(SetOf(e.H), SetOf(e.X))
-AsIsRO(e) == e.full = <<>> /\ Ans(e.cb) = (SetOf(e.H) \ SetOf(e.X)) \cap PresentS
+\* the objects come classified per group: full = all three, cb = commit and blob only, c = the commit id only
+DocRO(e)  == ~e.other /\ e.cb = <<>> /\ e.c = <<>> /\ Ans(e.full) = T_RO(SetOf(e.H), SetOf(e.X))
+AsIsRO(e) == /\ ~e.other /\ e.full = <<>>
+             /\ Ans(e.cb) = (SetOf(e.H) \ SetOf(e.X)) \cap PresentS
+             /\ Ans(e.c) = (SetOf(e.H) \ SetOf(e.X)) \ PresentS
 ExactRC(o) == \A k \in DOMAIN o.rc : DocRC(o.rc[k]) \/ AsIsRC(o.rc[k])
 ExactRO(o) == \A k \in DOMAIN o.ro : DocRO(o.ro[k]) \/ AsIsRO(o.ro[k])
 AsIsCount(o) == Cardinality({k \in DOMAIN o.rc : ~DocRC(o.rc[k])}) + Cardinality({k \in DOMAIN o.ro : ~DocRO(o.ro[k])})
